@@ -1220,10 +1220,14 @@ void ICACHE_FLASH_ATTR supla_esp_recv_callback(void *arg, char *pdata,
                                         SUPLA_EMAIL_MAXSIZE - oldMailLen - 1);
           if (partPasswordLen < SUPLA_EMAIL_MAXSIZE - oldMailLen - 1) {
             if (partPasswordLen >= SUPLA_EMAIL_MAXSIZE - newMailLen - 1) {
-              partPasswordLen = SUPLA_EMAIL_MAXSIZE - newMailLen - 1;
+              // keep room for the terminator inside the Email field
+              partPasswordLen = SUPLA_EMAIL_MAXSIZE - newMailLen - 2;
             }
-            memcpy(new_cfg.Email + newMailLen + 1,
-                   supla_esp_cfg.Email + oldMailLen + 1, partPasswordLen + 1);
+            if (partPasswordLen >= 0) {
+              memcpy(new_cfg.Email + newMailLen + 1,
+                     supla_esp_cfg.Email + oldMailLen + 1, partPasswordLen);
+              new_cfg.Email[newMailLen + 1 + partPasswordLen] = '\0';
+            }
           }
         } else {
           // mail was too long, so truncate password:
